@@ -1,7 +1,7 @@
 """C02 - paginated sink content is complete, ordered and navigable."""
 from . import render, core
 PID = 'C02'
-MINE = ['C02_NoPanic', 'C02_PastEndIsError', 'C02_OfferedRenders', 'C02_NavOffered', 'C02_Partition', 'C02_StaticEverywhere']
+MINE = ['C02_NoPanic', 'C02_PastEndIsError', 'C02_OfferedRenders', 'C02_NavOffered', 'C02_Partition', 'C02_StaticEverywhere', 'C02_FitsThenShown']
 
 
 def run(tier):
